@@ -8,10 +8,13 @@ from common import rel
 TRUSTED_BASE = [
     "the shift / conjugation / fold theorems are about the model; the tie to the code is the per-estimator correspondence (own "
     "properties) plus, here, the correspondence on MODULATED inputs (periodogram, Burg, Yule-Walker, MA, minimum variance, "
-    "correlogram from the data and from the library's lags, multitaper unity / eigen) and the class-glue correspondence",
+    "correlogram from the data and from the library's lags, multitaper unity / eigen; multitaper adapt / unity / eigen on a re-used "
+    "object: kind 'modhist') and the class-glue correspondence",
     "SVD-based estimators: relative to the SVD contract; checked by the oracle",
     "the oracle's references are numpy expressions of the statement itself: np.roll(p0, m), p0[(-k) % NFFT], 2 * pc[:L] with "
     "L = NFFT/2+1 (even) or (NFFT+1)/2 (odd), and the lengths NFFT / L; both sides of each relation come from the library",
+    "kind 'hist': the harness drives the object only through its public surface (constructor, `data` / `NFFT` attribute assignment, "
+    "`p()`, `p.run()`, `.psd`) and copies every estimate it reads",
 ]
 PARTIAL = ["MUSIC/EV relative to the SVD parameter"]
 ASSUMPTIONS = [
@@ -20,12 +23,28 @@ ASSUMPTIONS = [
     "and MUSIC / EV paths), max-norm relative to the peak AND per bin relative to the bin (bins above 1e-12 of the peak)",
     "NFFT admissible for the class (classes.min_nfft): >= N for periodogram / multitaper, 2*lag+1, 2*order, model order + 1",
     "pburg order-selection criteria AIC, AICc, KIC, AKICc, FPE, MDL ('CAT' is rejected by the constructor and is not generated)",
+    "kind 'hist' (objects with a past): same tolerances; 3e-6 for the time-reversal relation of the adaptive multitaper class (taper "
+    "asymmetry of ~1e-10 carried into bins 100 dB down by the adaptive weights: 5.5e-8 measured on new objects); line records of parma "
+    "have a noise floor of 1e-1 and those of order-12 Burg 1e-2 (round-off of the unchanged estimators grows as floor^-4 / floor^-2: "
+    "parma reaches 1.5e-4 at floor 1e-3 on new objects, which is conditioning, not a broken relation); the record estimated in between "
+    "has N-7 samples (in the domain of every generated configuration; not generated with caller-supplied tapers, which fix N), the "
+    "3-sample record may make the evaluation raise: the error is swallowed, only the later estimates are compared",
 ]
 RULE = ("complex/real data x integer shifts m (all residues for small NFFT; 0, NFFT/2, beyond one period both ways, random otherwise) x "
         "14 class variants x NFFT even/odd, NFFT <, =, > N, at the admissibility boundary, None and 'nextpow2'; N in 2..5, 12, 20, 24, 32, "
         "33, 40, 41, 48, 107, 300; orders random and at the boundary of the domain; ARMA P <= 4 and P > 4; constructor options (Burg "
         "criteria, Yule-Walker unbiased, MUSIC/EV criteria / threshold, multitaper supplied tapers / default k); fs=250 with "
-        "scale_by_freq; integer-array and list input; conjugation, time reversal, real-vs-declared-complex (with output lengths)")
+        "scale_by_freq; integer-array and list input; conjugation, time reversal, real-vs-declared-complex (with output lengths); "
+        "kind 'hist': the same clauses with the spectra observed on estimator objects that have a past -- ONE object per class whose "
+        "data is re-assigned (x then the transformed record, the transformed record then x, x again = rotation by 0 bins; read through "
+        ".psd, after p(), after p.run(); records assigned as arrays or lists; a record of another length or a 3-sample record "
+        "estimated in between), one object per record all alive before the first evaluation and evaluated in a permuted order, one "
+        "object whose NFFT attribute is changed between observations (even <-> odd, shorter <-> longer, away and back); 14 class "
+        "variants + 11 further configurations (adaptive multitaper NW=4 k=7 / default k / supplied tapers, Burg criteria, unbiased "
+        "Yule-Walker, MUSIC/EV criteria); N = 48, 64, 96, NFFT = N, 2N+1, random even; records with a LINE spectrum (2-3 tones "
+        "off the bin grid over a noise floor of 1e-2 / 1e-3 of the strongest tone; parma 1e-1, order-12 Burg 1e-2) and noise "
+        "records, complex and real, compared per bin; kind 'modhist': multitaper objects (adapt, unity, eigen; N = 24, 32, 48) that "
+        "estimated x and are then handed the modulated record: weights and psd against the Lean model of pmtm + class mean")
 
 TIMEREV = ["Periodogram", "pcorrelogram", "pyule", "pburg", "pmodcovar", "MT-unity", "MT-eigen", "MT-adapt", "pminvar"]
 REAL_FOLD = ["pburg", "pyule", "pcovar", "pmodcovar", "parma", "pma", "pminvar", "MT-unity", "MT-eigen", "MT-adapt"]
@@ -189,6 +208,198 @@ def _oracle_real(p):
     return out
 
 
+# histories: the same four clauses, with the spectra observed on estimator objects that have a past
+#
+# The property's observation point is `<estimator>.psd for x, x*exp(i theta n), conj(x), conj(x[::-1])`.  The kinds above build a
+# new object for every record; an estimate may however depend on what the object (or the process) computed before.  The kind
+# below observes the records
+#   mode 'reuse' : on ONE object per class whose `data` attribute is re-assigned (read through `.psd`, after `p()`, after
+#                  `p.run()`), in both orders (x then the transformed record; the transformed record then x), and x once more
+#                  at the end (rotation by m = 0 bins);
+#   mode 'alive' : on one object per record, all constructed before any of them is evaluated, evaluated in a permuted order
+#                  (same N / NFFT / configuration, different records: state shared between instances, incompletely keyed caches);
+#   mode 'nfft'  : on one object built and evaluated with another NFFT first, whose NFFT attribute is then changed (and, for
+#                  the conjugate clause, changed away and back without an evaluation in between).
+# Real records: the fold clause (one-sided = 2 x two-sided half of the same samples declared complex) and time reversal, same modes.
+
+HIST_LOOSE = ("pcovar", "pmodcovar", "parma", "pmusic", "pev")
+
+
+def _build(cls, x, nfft):
+    return _make(cls, x, nfft, _CFG.get("fs", 1.0), _CFG.get("scale", False), _CFG.get("cfg"))
+
+
+def _observe(obj, via):
+    """the estimate as the caller reads it: `.psd` (lazy evaluation), after an explicit `obj()`, or after `obj.run()`"""
+    if via == "call":
+        obj()
+    elif via == "run":
+        obj.run()
+    return np.array(obj.psd)        # a copy: the object may scale / convert its own array later
+
+
+def _mirror(a):
+    return a[(-np.arange(len(a))) % len(a)] if a.ndim == 1 and len(a) else a
+
+
+def _hist_relations(p):
+    """[(label, observed, expected)]: every pair must agree; both members come from the library"""
+    cls, x, nfft, mode = p["cls"], np.asarray(p["x"]), p["nfft"], p["mode"]
+    via, seq = p.get("via", "psd"), p.get("seq", "fwd")
+    N = len(x)
+    out = []
+    if np.iscomplexobj(x):
+        m = p["m"]
+        recs = {"x": x, "shift": x * np.exp(2j * np.pi * m * np.arange(N) / nfft), "conj": np.conj(x)}
+        if cls in TIMEREV:
+            recs["rev"] = np.conj(x[::-1])
+
+        def relate(P, name, tag=""):
+            P0 = P["x"]
+            if name == "shift":
+                out.append(("modulated data, m=%d%s" % (m, tag), P["shift"], np.roll(P0, m) if P0.ndim == 1 else P0))
+            elif name == "conj":
+                out.append(("conjugated data (mirror k <-> -k)" + tag, P["conj"], _mirror(P0)))
+            elif name == "rev":
+                out.append(("conjugated time-reversed data" + tag, P["rev"], P0))
+    else:
+        recs = {"x": x}
+        if cls in REAL_FOLD:
+            recs["cplx"] = x.astype(complex)
+        if cls in TIMEREV:
+            recs["rev"] = x[::-1].copy()
+
+        def relate(P, name, tag=""):
+            P0 = P["x"]
+            if name == "cplx":
+                L = C.expected_len(True, nfft)
+                Pc = P["cplx"]
+                if P0.ndim != 1 or len(P0) != L or Pc.ndim != 1 or len(Pc) != nfft:
+                    out.append(("output lengths (one-sided, two-sided)" + tag, np.array([P0.size, Pc.size], dtype=float),
+                                np.array([L, nfft], dtype=float)))
+                else:
+                    out.append(("real one-sided vs twice the two-sided half of the samples declared complex" + tag, P0, 2 * Pc[:L]))
+                    out.append(("two-sided estimate of real samples, bin k vs -k" + tag, Pc[1:], Pc[1:][::-1]))
+            elif name == "rev":
+                out.append(("time-reversed real data" + tag, P["rev"], P0))
+    names = [k for k in recs if k != "x"]
+    if mode == "alive":
+        keys = list(recs)
+        perm = [int(i) % len(keys) for i in p.get("perm", range(len(keys)))]
+        perm = [i for j, i in enumerate(perm) if i not in perm[:j]] + [i for i in range(len(keys)) if i not in perm]
+        objs = {k: _build(cls, recs[k], nfft) for k in keys}            # all alive before the first evaluation
+        P = {}
+        for i in perm:
+            P[keys[i]] = _observe(objs[keys[i]], via)
+        for k in names:
+            relate(P, k)
+        # evaluated a second time while the others are alive: rotation by 0 bins
+        out.append(("same record, second evaluation", _observe(objs["x"], "call"), P["x"]))
+        return out
+    if mode == "nfft":
+        obj = _build(cls, x, p["nfft0"])
+        _observe(obj, via)
+        obj.NFFT = nfft
+        P = {"x": _observe(obj, via)}
+        for k in names:
+            if k == "conj":
+                obj.NFFT = p["nfft0"]       # changed away and back, no evaluation in between
+                obj.NFFT = nfft
+            obj.data = recs[k]
+            P[k] = _observe(obj, via)
+            relate(P, k)
+        out.append(("same record on a new object (rotation by 0 bins)", P["x"], _observe(_build(cls, x, nfft), "psd")))
+        return out
+    # mode 'reuse'
+    as_list = p.get("input") == "list"
+
+    def assign(obj, rec):
+        obj.data = rec.tolist() if as_list else rec
+
+    def detour(obj):
+        """between two observations the object estimates something else: a record of another length ('len': N-7 samples, in the
+        domain of every generated configuration), or a record of 3 samples, for which the evaluation may raise ('fail': the
+        error is the caller's to handle; the object is used again afterwards)"""
+        d = p.get("detour")
+        if d == "len":
+            assign(obj, 1.5 * x[::-1][:N - 7] + x[0])
+            _observe(obj, via)
+        elif d == "fail":
+            assign(obj, x[:3])
+            try:
+                _observe(obj, via)
+            except Exception:
+                pass
+
+    if seq == "fwd":
+        obj = _build(cls, x, nfft)
+        P = {"x": _observe(obj, via)}
+        for k in names:
+            detour(obj)
+            assign(obj, recs[k])
+            P[k] = _observe(obj, via)
+            relate(P, k)
+        assign(obj, x)
+        out.append(("the first record again (rotation by 0 bins)", _observe(obj, via), P["x"]))
+        out.append(("evaluated once more, data untouched", _observe(obj, "call"), P["x"]))
+    else:
+        for k in names:
+            obj = _build(cls, recs[k], nfft)
+            P = {k: _observe(obj, via)}
+            detour(obj)
+            assign(obj, x)
+            P["x"] = _observe(obj, via)
+            relate(P, k, " (transformed record first)")
+    return out
+
+
+def oracle_hist(p):
+    _set_cfg(p)
+    try:
+        rels = _hist_relations(p)
+    finally:
+        _clear_cfg()
+    cls, nfft = p["cls"], p["nfft"]
+    # Tolerances: those of the new-object kinds (1e-6; 1e-5 for the least-squares / SVD classes), max-norm and per bin.  Measured on
+    # the unchanged code with `gen_hist` itself (40 quick streams = 11 880 cases, and 12 thorough streams = 13 800 cases; line and
+    # noise records, all modes), worst error of any relation, max-norm or per bin, per class:
+    #   Periodogram 1.3e-9, pcorrelogram 9.3e-11, pburg 4.5e-9 (order 12 + criterion at floor 1e-2: 7.5e-10), pyule 1.2e-9,
+    #   pminvar 1.2e-9, pma 1.7e-12, MT-unity 3.9e-10, MT-eigen 2.3e-10, MT-adapt 6.6e-9 (shift / mirror / fold / rotation by 0)
+    #   -> all >= 150x below 1e-6;   pcovar 6.8e-10, pmodcovar 8.1e-10, parma 2.6e-9 (floor 1e-1), pmusic 2.8e-9, pev 1.7e-11
+    #   -> >= 3000x below 1e-5.
+    # One relation gets its own tolerance: time reversal of the adaptive multitaper estimate.  The C-computed tapers are
+    # symmetric to ~1e-10 only, and the adaptive weights carry that into bins 100 dB below the peak: 1.6e-8 per bin in the streams
+    # above, 5.5e-8 the worst over 3000 further line records on NEW objects (N=96, NFFT=96); 3e-6 leaves 55x.
+    tol = 1e-5 if cls in HIST_LOOSE else 1e-6
+    what = "%s (NFFT=%d), %s" % (cls, nfft, _hist_label(p))
+    out = []
+    tol0 = tol
+    for label, a, b in rels:
+        a, b = np.asarray(a), np.asarray(b)
+        tol = 3e-6 if (cls == "MT-adapt" and "time-reversed" in label) else tol0
+        if a.shape != b.shape or np.iscomplexobj(a) or np.iscomplexobj(b):
+            out.append("%s: %s: shapes %s / %s" % (what, label, a.shape, b.shape))
+        elif rel(a, b) > tol:
+            out.append("%s: %s: estimate differs (rel err %.2e)" % (what, label, rel(a, b)))
+        elif binrel(a, b) > tol:
+            out.append("%s: %s: some bin differs (per-bin rel err %.2e)" % (what, label, binrel(a, b)))
+    return out
+
+
+def _hist_label(p):
+    mode = p["mode"]
+    via = {"psd": ".psd", "call": "p(); p.psd", "run": "p.run(); p.psd"}[p.get("via", "psd")]
+    if mode == "reuse":
+        return "one estimator object, data re-assigned%s (%s, read through %s)%s" % (
+            " as a list" if p.get("input") == "list" else "",
+            "x first" if p.get("seq", "fwd") == "fwd" else "transformed record first", via,
+            {None: "", "len": ", a record of N-7 samples estimated in between",
+             "fail": ", a record of 3 samples tried in between"}[p.get("detour")])
+    if mode == "alive":
+        return "one object per record, all alive, evaluation order %s (%s)" % (list(p.get("perm", [])), via)
+    return "one estimator object, NFFT changed from %d (%s)" % (p["nfft0"], via)
+
+
 # correspondence on modulated inputs
 
 def _modulated(p):
@@ -264,10 +475,37 @@ def model_mod(p):
     return ("F", proto.request("sper", "F", [0, p["nfft"]], [y, w]))
 
 
+# the multitaper class on a re-used object against the model: the object estimates x, is handed the modulated record, and its
+# weights and psd are compared with the Lean model of pmtm + class mean evaluated on the modulated record alone (the model knows
+# no histories).  For 'adapt' this is Thomson's iteration from its documented start, stopped on the documented criterion.
+# rtol 1e-7 (max-norm, as for the 'mod' kind): worst disagreement on the unchanged code over 1200 cases 1.7e-12 (adaptive weights of
+# a line record; the weights of the low-power bins are O(1) numbers, so the max-norm sees them), 1.4e-15 on the psd.
+
+def impl_modhist(p):
+    sp = C.sp()
+    x = np.asarray(p["x"])
+    y = _modulated(p)
+    P = sp.MultiTapering(x, NW=p["NW"], k=p["k"], NFFT=p["nfft"], method=p["fn"][4:], scale_by_freq=False)
+    _observe(P, p.get("via", "psd"))
+    P.data = y
+    psd = _observe(P, p.get("via", "psd"))
+    return [np.asarray(P.weights).ravel(), psd]
+
+
+def model_modhist(p):
+    y = _modulated(p)
+    v, e = _tapers(len(y), p["NW"], p["k"])
+    return ("F", proto.request("mtm", "F", [p["fn"][4:], p["nfft"]], [y, e, [0.0005]] + [v[:, i] for i in range(v.shape[1])]))
+
+
+def post_modhist(p, iv, mv):
+    return iv, list(mv[-2:])            # the model returns the eigenspectra first; the object exposes weights and psd
+
+
 def _key(p):
     x = np.asarray(p["x"])
     cfg = p.get("cfg") or {}
-    extra = "|".join("%s=%s" % (k, p[k]) for k in ("fs", "scale", "nfft_spec", "input", "order", "Q", "M", "lag", "window", "NW", "k")
+    extra = "|".join("%s=%s" % (k, p[k]) for k in ("fs", "scale", "nfft_spec", "input", "order", "Q", "M", "lag", "window", "NW", "k", "mode", "seq", "via", "nfft0", "perm", "detour")
                      if k in p)
     return "%s|%s|%s|%s|%s|%d|%s|%s" % (p.get("cls"), p.get("fn"), p.get("nfft"), p.get("m"), cfg.get("window"),
                                        hash(x.tobytes()) & 0xFFFFF, sorted((k, str(v)) for k, v in cfg.items()), extra)
@@ -288,12 +526,21 @@ def _tags(p):
         t.append("input:%s/%s" % (p.get("input", "array"), x.dtype.kind))
     if p.get("tag"):
         t.append("family:" + p["tag"])
+    if p.get("mode"):
+        t.append("history:%s%s" % (p["mode"], "/" + p.get("seq", "fwd") if p["mode"] == "reuse" else ""))
+        t.append("history-read:" + {"psd": ".psd", "call": "p();p.psd", "run": "p.run();p.psd"}[p.get("via", "psd")])
+        t.append("history-data:" + ("real" if not np.iscomplexobj(x) else "complex"))
+        if p.get("detour"):
+            t.append("history-detour:" + p["detour"])
     return t
 
 
 KINDS = {
     "shift": {"oracle": oracle_shift, "key": _key, "tags": _tags},
     "real": {"oracle": oracle_real, "key": _key, "tags": _tags},
+    "hist": {"oracle": oracle_hist, "key": _key, "tags": _tags},
+    "modhist": {"impl": impl_modhist, "model": model_modhist, "post": post_modhist, "rtol": 1e-7, "atol": 1e-300, "key": _key,
+                "tags": _tags},
     "mod": {"impl": impl_mod, "model": model_mod, "rtol": 1e-7, "atol": 1e-300, "key": _key, "tags": _tags},
 }
 
@@ -512,6 +759,113 @@ def _gen_mod(nrng, tier):
         yield ("mod", q)
 
 
+def _lines(nrng, N, cplx=True, eps=None):
+    """a line spectrum: 2 or 3 tones of different amplitudes, frequencies anywhere (not on the bin grid), over a noise floor
+    1e-2 or 1e-3 of the strongest tone: most bins are 40..100 dB below the peak, so the per-bin comparison is the one that matters"""
+    n = np.arange(N)
+    nt = int(nrng.integers(2, 4))
+    e_ = [1e-2, 1e-3][int(nrng.integers(0, 2))]
+    eps = e_ if eps is None else eps
+    amps = np.array([1.0, 0.5, 0.2][:nt]) * nrng.uniform(0.8, 1.25, nt)
+    ph = nrng.uniform(0, 2 * np.pi, nt)
+    if cplx:
+        f = nrng.uniform(-0.5, 0.5, nt)
+        x = sum(a * np.exp(1j * (2 * np.pi * fi * n + q)) for a, fi, q in zip(amps, f, ph))
+        return x + eps * (nrng.standard_normal(N) + 1j * nrng.standard_normal(N))
+    f = nrng.uniform(0.03, 0.47, nt)
+    x = sum(a * np.cos(2 * np.pi * fi * n + q) for a, fi, q in zip(amps, f, ph))
+    return x + eps * nrng.standard_normal(N)
+
+
+VIAS = ["psd", "call", "run"]
+# further configurations of the iterative / option-dependent classes for the history cases
+HIST_CFGS = [("MT-adapt", {"NW": 4.0, "k": 7}), ("MT-adapt", {"NW": 2.5, "k": None}), ("MT-adapt", {"NW": 2.5, "k": 4, "supplied": True}),
+             ("MT-adapt", {"NW": 2.0, "k": 3}), ("MT-eigen", {"NW": 4.0, "k": 7}), ("MT-unity", {"NW": 3.0, "k": 5}),
+             ("pburg", {"order": 12, "criteria": "AIC"}), ("pburg", {"order": 12, "criteria": "MDL"}),
+             ("pyule", {"order": 4, "norm": "unbiased"}),
+             ("pmusic", {"order": 6, "nsig": None, "eig_criteria": "aic"}), ("pev", {"order": 6, "nsig": None, "threshold": 3.0})]
+
+
+def gen_hist(nrng, tier):
+    """the four clauses observed on estimator objects with a past (kind 'hist'): every class, records with a line spectrum and
+    noise records, complex and real, NFFT = N / odd / even, both orders, the three ways of triggering an evaluation"""
+    quick = tier == "quick"
+    c = 0
+    plan = [(cls, None) for cls in C.CLASSES] + HIST_CFGS
+    for rep in (int(nrng.integers(0, 3)),):          # which of the three record lengths a class gets differs from stream to stream
+        for j, (cls, cfg) in enumerate(plan):
+            N = [64, 96, 48][(j + rep) % 3]
+            lo = C.min_nfft(cls, N, cfg or C.default_cfg(cls, N, True))
+            nffts = [max(lo, v) for v in (N, 2 * N + 1, N + 2 * int(nrng.integers(1, N // 2)))]
+            # parma: the modified Yule-Walker equations lose accuracy as floor^-4 on nearly noiseless lines (new objects, unchanged
+            # code, 300 records per floor: worst error of the clauses 1.5e-4 at floor 1e-3, 8.8e-6 at 1e-2, 1.1e-7 at 3e-2, 3.6e-9
+            # at 1e-1), so its line records get a floor of 1e-1; every other class keeps 1e-2 / 1e-3
+            # pburg at order 12 with an order-selection criterion: error ~ floor^-2 (1500 records per floor, new objects: worst
+            # 8.2e-8 at floor 1e-3, 7.5e-10 at 1e-2; order 4: 4.5e-9 at 1e-3), so its line records get the 1e-2 floor only
+            eps = 0.1 if cls == "parma" else 1e-2 if (cls == "pburg" and cfg and cfg.get("order", 0) >= 8) else None
+            xs = {"lines": _lines(nrng, N, eps=eps), "noise": _cx(nrng, N)}
+            xr = {"lines": _lines(nrng, N, cplx=False, eps=eps), "noise": _rx(nrng, N)}
+
+            def case(rec, real, mode, **kw):
+                nonlocal c
+                c += 1
+                nfft = kw.pop("nfft", nffts[c % 3])
+                q = {"cls": cls, "x": (xr if real else xs)[rec], "nfft": nfft, "mode": mode, "via": kw.pop("via", VIAS[c % 3]),
+                     "tag": "hist-" + rec}
+                if not real:
+                    q["m"] = int(nrng.integers(-nfft, nfft))
+                if cfg:
+                    q["cfg"] = cfg
+                q.update(kw)
+                return ("hist", q)
+
+            # one object, data re-assigned: both orders, line spectrum and noise, complex and real
+            for rec in ("lines", "noise"):
+                for seq in ("fwd", "rev"):
+                    if quick and cfg is not None and (rec, seq) == ("noise", "rev"):
+                        continue
+                    yield case(rec, False, "reuse", seq=seq)
+                    if _real_checked(cls) and (rec == "lines" or not quick):
+                        yield case(rec, True, "reuse", seq=seq)
+            if not quick:
+                for via in VIAS:
+                    for nfft in nffts:
+                        yield case("lines", False, "reuse", seq="fwd", via=via, nfft=nfft)
+            # something else estimated between the observations: a record of another length, a record too short to estimate
+            # from (the error, if any, is swallowed by the caller); the records assigned as plain lists
+            supplied = bool(cfg and cfg.get("supplied"))          # tapers supplied by the caller are for N samples only
+            for i, det in enumerate(("fail",) if supplied else ("len", "fail")):
+                real = bool((j + i + rep) % 2) and _real_checked(cls)
+                yield case("lines", real, "reuse", seq=["fwd", "rev"][(j + i) % 2], detour=det)
+            yield case("lines", bool(j % 2 == 0) and _real_checked(cls), "reuse", seq=["rev", "fwd"][j % 2], input="list")
+            # several objects alive at once, evaluated in another order than they were built
+            for real in (False, True):
+                if real and not _real_checked(cls):
+                    continue
+                yield case("lines", real, "alive", perm=[int(v) for v in nrng.permutation(4)])
+            # NFFT changed between observations (even <-> odd, shorter <-> longer)
+            for real in (False, True):
+                if real and not _real_checked(cls):
+                    continue
+                nfft = nffts[c % 3]
+                nfft0 = max(lo, nfft + [1, -1, 7, -8][c % 4])
+                if nfft0 == nfft:
+                    nfft0 = nfft + 1
+                yield case("lines" if c % 2 else "noise", real, "nfft", nfft=nfft, nfft0=nfft0)
+
+
+def gen_modhist(nrng, tier):
+    """multitaper objects that have estimated x, then the modulated record: weights and psd against the model"""
+    fns = ["mtm-adapt", "mtm-adapt", "mtm-unity", "mtm-adapt", "mtm-eigen", "mtm-adapt"]
+    for i in range(18 if tier == "quick" else 60):
+        N = [24, 48, 32][i % 3]
+        nfft = [N, 2 * N + 1, 64][(i // 3) % 3]
+        x = _lines(nrng, N) if i % 2 == 0 else nrng.standard_normal(N) + 1j * nrng.standard_normal(N)
+        NW, k = [(2.5, 4), (2.0, 3), (3.0, 5), (4.0, 7)][(i // 2) % 4]
+        yield ("modhist", {"fn": fns[(i // 2) % 6], "x": x, "nfft": nfft, "m": int(nrng.integers(-nfft, nfft)), "NW": NW, "k": k,
+                           "via": VIAS[(i // 6) % 3], "mode": "reuse", "tag": "hist-" + ("lines" if i % 2 == 0 else "noise")})
+
+
 def gen(rng, nrng, tier):
     N = 40
     n = np.arange(N)
@@ -573,3 +927,5 @@ def gen(rng, nrng, tier):
         yield ("mod", {"fn": ["burg", "aryule", "sper"][i % 3], "x": x, "nfft": nfft, "m": int(nrng.integers(-nfft, nfft)), "order": 4})
     yield from _gen_mod(nrng, tier)
     yield from _gen_closure(nrng, tier)
+    yield from gen_modhist(nrng, tier)
+    yield from gen_hist(nrng, tier)       # last: the random stream of the cases above is the one it was before this kind existed
